@@ -49,7 +49,7 @@ TRUSTED = [
 ASSUMPTIONS = ['N >= 1 (Database refuses an empty table)', 'cpu_count() >= 1', 'per-row Hessians are symmetric (hypothesis of C04.hessian_sum)']
 RULE = (
     'table (1-40 rows, shuffled index labels) x formula family {col, quad, logit, expmix} x weight {none, column, expression} x thread counts '
-    '{1,2,3,N-1,N,N+1,2N,0} x 2 permutations x one 2-4 way split; non-trivial = >= 2 rows and (T >= 2 or non-identity permutation or split)'
+    '{1,2,3,N-1,N,N+1,2N,0} x 2 permutations x one 2-4 way split; panel tables (1-12 individuals, blocks of individuals); non-trivial = >= 2 rows and (T >= 2 or non-identity permutation or split)'
 )
 
 WHERE_RETHREAD = 'simulate after number_of_threads was changed (engine thread state shared with the likelihood)'
@@ -574,6 +574,69 @@ def check_rethread(res, case, T0, T1):
     return bad
 
 
+# ----------------------------------------------------------------------------- panel data: blocks of individuals
+
+
+def check_panel_threads(ctx, res, rng):
+    """on panel data the engine distributes *individuals* over the threads: the same model with
+    N = number of individuals, per-individual values from simulate"""
+    import pandas as pd
+    import biogeme.biogeme as bio
+    import biogeme.database as db
+    from biogeme.expressions import Variable, Numeric, log, PanelLikelihoodTrajectory
+
+    n_ind = rng.choice([1, 2, 3, 4, 5, 7, 9, 12])
+    ids = rng.sample(range(-20, 40), n_ind)
+    rows = []
+    for v in ids:
+        for _ in range(rng.randint(1, 3)):
+            rows.append([v, rng.choice([0.125, 0.25, 0.5, 0.75, 0.9])])
+    weight = rng.choice([None, 2.0, 0.5])
+    threads = [t for t in thread_set(n_ind)]
+    case = {'panel_rows': rows, 'weight_const': weight}
+    ref = None
+    for T in threads:
+        desc = dict(case, threads=T)
+        iso_f.note(desc, 'calculate_likelihood / simulate')
+        try:
+            with core.scratch(TOML.format(T=5)):
+                d = db.Database('t', pd.DataFrame({'ID': [r[0] for r in rows], 'P': [r[1] for r in rows]}))
+                d.panel('ID')
+                ll = log(PanelLikelihoodTrajectory(Variable('P')))
+                f = {'log_like': ll} if weight is None else {'log_like': ll, 'weight': Numeric(weight)}
+                B = bio.BIOGEME(d, f, number_of_threads=T)
+                L = float(B.calculate_likelihood([], scaled=False))
+                Ls = float(B.calculate_likelihood([], scaled=True))
+                # simulate refuses, on panel data, any formula without a trajectory operator (a constant
+                # weight): the per-individual values come from the unweighted object
+                d2 = db.Database('t', pd.DataFrame({'ID': [r[0] for r in rows], 'P': [r[1] for r in rows]}))
+                d2.panel('ID')
+                sim = bio.BIOGEME(d2, log(PanelLikelihoodTrajectory(Variable('P'))), number_of_threads=T).simulate({})
+                l = [float(v) for v in sim['log_like'].values]
+                w = None if weight is None else [float(weight)] * len(l)
+                thr = int(B.number_of_threads)
+        except Exception as e:  # noqa: BLE001
+            res.violate(f'the likelihood entry points raise {type(e).__name__}: {str(e)[:200]} on a valid panel table', desc, core.exc_kind(e), 'a value', where='calculate_likelihood / simulate')
+            return
+        res.count({'panel': desc}, nontrivial=n_ind >= 2 and (T >= 2 or T == 0))
+        res.tally('panel-threads')
+        exp = wsum(w, l)
+        tol = tol_for(l if w is None else [a * b for a, b in zip(w, l)], n_ind)
+        if len(l) != n_ind:
+            res.violate('simulate on panel data reports one value per individual', desc, len(l), n_ind, where='calculate_likelihood / simulate')
+            return
+        if not abs(L - exp) <= tol:
+            res.violate('panel log likelihood = sum over individuals of weight x per-individual simulated value', desc, L, exp, where='calculate_likelihood / simulate')
+        if not core.close(Ls, L / n_ind, rel=1e-15):
+            res.violate('scaled panel log likelihood = log likelihood / number of individuals', desc, Ls, L / n_ind, where='calculate_likelihood / simulate')
+        if ref is None:
+            ref = L
+        elif not abs(L - ref) <= 2 * tol:
+            res.violate(f'panel log likelihood with {T} thread(s) = with {threads[0]} thread(s)', desc, L, ref, where='number_of_threads')
+        rec = {'names': [], 'threads': thr, 'N': n_ind, 'L': L, 'Ls': Ls, 'l': l, 'w': w}
+        compare_model(ctx, res, rec, None, T, desc)
+
+
 # ----------------------------------------------------------------------------- the check
 
 CORPUS = [
@@ -615,6 +678,8 @@ def check_impl(ctx) -> Result:
         T0, T1 = rng.sample(range(1, N + 2), 2)
         case = gen_case(rng, N=N, formula=rng.choice(['col', 'quad']))
         check_rethread(res, case, T0, T1)
+    for _ in range(ctx.n(12, 300)):
+        check_panel_threads(ctx, res, rng)
     n_cases = ctx.n(100, 1600)
     for i in range(n_cases):
         adversarial = i % 3 == 0
